@@ -170,4 +170,40 @@ CHECKS = {
         "rule": "BFS with dedup on per-pool and per-task observables",
         "assumptions": [REAL, CLOCK, "one driver thread plays every event loop (real-thread interleavings of the same windows are the pause-point explorer's job)"],
     },
+    "C16": {
+        "parts": [seqx("io.c16")],
+        "design_ref": "DESIGN.md §5 C16/C17/C18",
+        "technique": "bounded-exhaustive enumeration of scripted kernel answer sequences x buffer/iovec shapes x blocking mode x socket timeout for the ten hooked read/write-family calls; the kernel is an extern \"C\" function handed in as fn_ptr that plays the script, copies bytes through exactly the ranges it is handed and records every request",
+        "level_text": "for every case the return value is compared with the bytes the kernel model really moved, the caller's buffers with the stream (reads) / the model's sink with the caller's data (writes), -1 only when nothing moved with the failing errno, zero-length requests return 0",
+        "level_note": "stop policy left free (returning after the first transfer is fine); script depth 2-3 (quick) / 3-4 (thorough)",
+        "rule": "one case per (call, shape, mode, timeout, script); scripts: all sequences up to the stated depth over the stated answer alphabet; every case is distinct",
+        "assumptions": [REAL, CLOCK, "readiness waits are answered through the verif wait seam (no epoll involved); a real socketpair end supplies fstat/fcntl/getsockopt"],
+    },
+    "C17": {
+        "parts": [seqx("io.c17")],
+        "design_ref": "DESIGN.md §5 C16/C17/C18",
+        "technique": "bounded-exhaustive enumeration of scripted kernel answer sequences x buffer/iovec shapes x blocking mode x socket timeout for the ten hooked read/write-family calls; the kernel is an extern \"C\" function handed in as fn_ptr that plays the script, copies bytes through exactly the ranges it is handed and records every request",
+        "level_text": "every vectored request the kernel model is handed is checked: each declared entry inside a caller buffer, covering only bytes not yet transferred, in order; the model reads as many entries as were declared, so a count that does not match the array shows as entries outside the caller's buffers",
+        "level_note": "entries beyond a too-short array are arbitrary memory (probed for readability first)",
+        "rule": "one case per (call, shape, mode, timeout, script); scripts: all sequences up to the stated depth over the stated answer alphabet; every case is distinct",
+        "assumptions": [REAL, CLOCK, "readiness waits are answered through the verif wait seam (no epoll involved); a real socketpair end supplies fstat/fcntl/getsockopt"],
+    },
+    "C18": {
+        "parts": [seqx("io.c18")],
+        "design_ref": "DESIGN.md §5 C16/C17/C18",
+        "technique": "bounded-exhaustive enumeration of scripted kernel answer sequences x buffer/iovec shapes x blocking mode x socket timeout for the ten hooked read/write-family calls; the kernel is an extern \"C\" function handed in as fn_ptr that plays the script, copies bytes through exactly the ranges it is handed and records every request",
+        "level_text": "for every case with O_NONBLOCK set by the caller and a first kernel answer EAGAIN: -1/EAGAIN with zero waits and zero virtual time; F_GETFL after every call on every path equals before",
+        "level_note": "connect/accept are not in the enumeration yet",
+        "rule": "one case per (call, shape, mode, timeout, script); scripts: all sequences up to the stated depth over the stated answer alphabet; every case is distinct",
+        "assumptions": [REAL, CLOCK, "readiness waits are answered through the verif wait seam (no epoll involved); a real socketpair end supplies fstat/fcntl/getsockopt"],
+    },
+    "C14": {
+        "parts": [seqx("c14.timed")],
+        "design_ref": "DESIGN.md §5 C14",
+        "technique": "bounded-exhaustive enumeration of timeout values x six hooked timed calls x {coroutine on a synchronous loop, plain thread} under a virtual clock with scripted inner functions that report nothing ready; invalid arguments compared differentially with the native libc call",
+        "level_text": "for every case: requested <= virtual elapsed <= requested + slack (2 x SLICE + 1 ms, fixed in advance); infinite waits have not returned at a 5 s horizon; return values as native; invalid arguments return what libc returns",
+        "level_note": "the plain-thread caller runs on the driver thread with the synchronous loop as its current loop; the dylib interposition layer is not part of the check",
+        "rule": "one case per (call, timeout value or invalid argument, caller kind); every case is distinct",
+        "assumptions": [REAL, CLOCK],
+    },
 }
